@@ -57,11 +57,29 @@ Definition C09_full : Prop := forall e md files mir,
 Theorem C09_full_refuted : ~ C09_full.
 Proof.
   intro H.
-  destruct const_and_struct_same_name_accepted as [A B]. cbv zeta in A, B.
+  destruct included_decls_unchecked as [A B]. cbv zeta in A, B.
   match type of A with is_ok ?o = true => destruct o as [mir| | |] eqn:E; try discriminate end.
-  destruct (H _ _ _ _ E) as [U _]. rewrite B in U. discriminate.
+  destruct (H _ _ _ _ E) as [_ U]. rewrite B in U. discriminate.
 Qed.
 Print Assumptions C09_full_refuted.
+
+(* the pinned upstream symbol table kept types and constants under separate keys: a constant
+   could share its name with a struct (F22) ... *)
+Theorem C09_witness_const_vs_type_upstream :
+  exists files, is_ok (gather_files_gen false st_empty files) = true /\
+                is_ok (gather_files_gen true st_empty files) = false /\ rule_uniq_toplevel files = false.
+Proof. eexists. exact const_and_struct_same_name_accepted_upstream. Qed.
+Print Assumptions C09_witness_const_vs_type_upstream.
+(* ... the repaired one (regenerated fact) gives one namespace to every top-level name of every
+   loaded file, both entry points *)
+Theorem C09_unique_toplevel_all : symbols_one_namespace = true -> forall e md files mir,
+  front e md files = Ok mir -> rule_uniq_toplevel files = true.
+Proof. intros F e md files mir. now apply front_toplevel_unique. Qed.
+Print Assumptions C09_unique_toplevel_all.
+Theorem C09_unique_toplevel_current : forall e md files mir,
+  front e md files = Ok mir -> rule_uniq_toplevel files = true.
+Proof. exact (C09_unique_toplevel_all eq_refl). Qed.
+Print Assumptions C09_unique_toplevel_current.
 
 (* the pinned upstream verifier accepted a second object array of one direction and an input
    array of a small struct that contains an object (F7, F8) ... *)
